@@ -187,6 +187,13 @@ def check_stream_law(ctx, data, sc, bs, scratch):
         o2 = io.BytesIO()
         rev = s_obj.reverse()
         FastaStream(o2, fi).write_scaffold(rev)
+        # the original and its reversal written by ONE write_assembly call (both strands of a scaffold side by
+        # side, as for a strand-specific view): two entries, the second the reverse complement of the first
+        from tola.assembly.assembly import Assembly
+
+        o3 = io.BytesIO()
+        FastaStream(o3, fi).write_assembly(Assembly("both", scaffolds=[s_obj, rev]))
+        ctx.count("streamlaw:original-and-reversal-in-one-assembly")
         # a reversed scaffold is a scaffold like any other: extend it, reverse it again -> the mirrored rows of
         # what it holds NOW (not a remembered original)
         edited = s_obj.reverse()
@@ -226,6 +233,9 @@ def check_stream_law(ctx, data, sc, bs, scratch):
     body2 = b"".join(o2.getvalue().split(b"\n")[1:])
     known = all(r[0] == "G" or r[4] != 0 for r in sc[1])
     ctx.nontrivial([case["data"], sc, bs])
+    if o3.getvalue() != o1.getvalue() + o2.getvalue():
+        ctx.violation("original-and-reversal-in-one-assembly-differ-from-streaming-each", f"scaffold {sc} buffer={bs}\n got {o3.getvalue()[:160]!r}\nwant {(o1.getvalue() + o2.getvalue())[:160]!r}", case)
+        return
     if edited_bad:
         ctx.violation("reverse-of-edited-reversed-scaffold", f"scaffold {sc}: got {edited_bad[0][:6]} expected {edited_bad[1][:6]}", case)
         return
